@@ -116,3 +116,11 @@ pub proof fn axiom_seq_cmp_trans(a: Seq<char>, b: Seq<char>, c: Seq<char>)
     ensures seq_cmp(a, c) != Ordering::Greater,
         (seq_cmp(a, b) == Ordering::Less || seq_cmp(b, c) == Ordering::Less) ==> seq_cmp(a, c) == Ordering::Less,
 {}
+
+// two string slices with the same contents are the same spec value
+#[verifier::external_body]
+pub broadcast proof fn axiom_str_ext(a: &str, b: &str)
+    requires #[trigger] a@ == #[trigger] b@,
+    ensures a == b,
+{}
+
